@@ -144,7 +144,7 @@ Qed.
 (* K2: the witness                                                                                  *)
 (* ---------------------------------------------------------------------------------------------- *)
 
-Definition k2_cf : config := Cf 1 2 10.
+Definition k2_cf : config := Cf 1 2 10 [] [].
 Definition k2_cmds : list cmd := run_cmds (N.to_nat 65537) 0 0.
 (* command i (sequence number i mod 2^16) is answered at once by transmission i's reply; the reply to
    transmission 0 arrives a second time just before the reply to transmission 65536 *)
@@ -219,7 +219,7 @@ Qed.
 (* window 2, 3 tries, timeout 10; command 1 has an extra timeout of 5.  Request 0 is answered late (its
    retransmission is answered too: a duplicate), command 1 first gets a busy (retryable) answer and is
    retransmitted; 6 further events are supplied and not needed *)
-Definition ex_cf : config := Cf 2 3 10.
+Definition ex_cf : config := Cf 2 3 10 [] [].
 Definition ex_cmds : list cmd := [Cmd 0 0; Cmd 1 5; Cmd 2 0].
 Definition ex_events : list event :=
   [Ev [] 11; Ev [Dg 128 0 0; Dg 128 0 2] 12; Ev [Dg 130 1 1] 13; Ev [] 16;
@@ -250,10 +250,10 @@ Proof.
 Qed.
 
 Lemma ex_timeout :
-  exists tr k' rest, burst (Cf 1 2 10) [Cmd 7 0] [Ev [] 11; Ev [] 22] conn0 = (tr, RaisedTimeout 7, k', rest).
+  exists tr k' rest, burst (Cf 1 2 10 [] []) [Cmd 7 0] [Ev [] 11; Ev [] 22] conn0 = (tr, RaisedTimeout 7, k', rest).
 Proof. eexists. eexists. eexists. vm_compute. reflexivity. Qed.
 
 Lemma ex_fatal :
   exists tr k' rest,
-    burst (Cf 1 2 10) [Cmd 7 0] [Ev [Dg rc_cpu 0 0] 1] conn0 = (tr, RaisedFatal rc_cpu (Some 7), k', rest).
+    burst (Cf 1 2 10 [] []) [Cmd 7 0] [Ev [Dg rc_cpu 0 0] 1] conn0 = (tr, RaisedFatal rc_cpu (Some 7), k', rest).
 Proof. eexists. eexists. eexists. vm_compute. reflexivity. Qed.
